@@ -476,6 +476,30 @@ def run(ctx):
                '' if got == want else f'`a > b` remapped with {km} becomes `{got[0] if got else None} > {got[1] if got else None}` instead of `{want[0]} > {want[1]}`',
                owner_.mod.rel, fn_.lineno, construct='cirq.value.condition.SympyCondition._with_measurement_key_mapping_')
 
+    # ------------------------------------------------------------------ C12.k
+    ctx.decided.append('C12.k an operation cannot satisfy its own classical control: in AbstractCircuit._control_keys_ the keys an operation measures are added to the '
+                       'measured set only after its control keys have been tested against that set')
+    ctx.rule('C12.k', 'AbstractCircuit._control_keys_: inside the loop over operations the statement that tests `k not in <measured>` precedes the statement that adds '
+             'measurement_key_objs(op) to <measured> (a nested operation that reads `a` and then re-measures `a` still needs the outer `a`)', floor=1, style='MPT')
+    ac_ = repo.cls('cirq.circuits.circuit.AbstractCircuit')
+    ck = ac_.methods.get('_control_keys_')
+    if ck is None:
+        raise AnalysisError('AbstractCircuit._control_keys_ vanished')
+    loops_ = [l for l in ast.walk(ck) if isinstance(l, ast.For)]
+    if not loops_:
+        raise AnalysisError('AbstractCircuit._control_keys_: loop vanished')
+    body_ = loops_[0].body
+    upd = tst = None
+    for i_, st in enumerate(body_):
+        for c_ in ast.walk(st):
+            if isinstance(c_, ast.Call) and call_name(c_) == 'measurement_key_objs' and upd is None:
+                upd = i_
+            if isinstance(c_, ast.Compare) and any(isinstance(o, ast.NotIn) for o in c_.ops) and tst is None:
+                tst = i_
+    ok = upd is not None and tst is not None and tst < upd
+    ctx.ob('C12.k', f'{ac_.qual}._control_keys_:test-before-record', ok, '' if ok else 'the measured-keys set already contains the keys of the operation whose controls are being '
+           'tested: a sub-circuit that reads key a from outside and then measures a itself reports no external control', ac_.mod.rel, ck.lineno)
+
 
 def _is_carrying(v, ci, builders, params, assigned, depth=0):
     """Is expression v a CircuitOperation that carries all fields of self?"""
